@@ -56,6 +56,19 @@ THEOREMS (all proved, all "Closed under the global context"; fs, cwd, base, loc,
                                 breaks this obligation (r2m3: m_tobytes rejected by the checker; r4m3: np.fromfile(
                                 tensor.path) rejected by the extraction).  Tied to the implementation: the C/O events of
                                 every observed call must be a trace of the extracted method (`accepts`, in Coq).
+  C10_check_model_equals_source / C10_path_and_load_base_equal_source / C10_contained_source_check   (2nd deepening round)
+                                _check_path_containment is translated STATEMENT BY STATEMENT on every run (extract_check:
+                                fail-closed ast -> Gallina over the string-level operations of C10/CheckDsl.v) into
+                                Gen/C10Gen.gen_check, together with the `path` property (gen_path) and load()'s base_dir
+                                expression (gen_load_base); generation fails unless the base_dir getter/setter, location,
+                                __init__ are plain field accesses, load() is the straight line proto/model/base_dir/
+                                set_base_dir(graph)/for-functions/return and set_base_dir assigns unconditionally.
+                                Theorem: the hand model `check` (about which containment is proved) EQUALS gen_check for
+                                every fs/cwd/base/loc (cwd names without '/'), via parse(render u) = u on everything
+                                posixpath produces (C10/Canon.v) and a no-slash invariant of the realpath walk; the
+                                containment theorem is restated for the translated check.  Seeded edits of the check:
+                                m2 m3 r2m1 r3m2 r3m3 r5m1 rejected by the translation, m1 breaks the equivalence proof,
+                                r2m2 r5m2 (load) r4m1 (setter) r4m2 r5m3 (set_base_dir) rejected by the structure checks.
   C10_load_traversal_complete   wherever a tensor can sit in a model (independent inductive `occ_model`: initializers of the
                                 main graph / nested subgraphs at any depth, TENSOR/TENSORS attributes of any node, main
                                 graph or model-local function) load()'s traversal (model of _all_tensors +
@@ -1835,9 +1848,10 @@ def extract_calls() -> str:
         order.append(m)
     for m in sorted(tr.dirty):
         visit(m)
-    lines = ["(* GENERATED by harness/props/c10.py (extract_calls) from /repo/src/onnx_ir/_core.py and external_data.py",
-             "   on every run — do not edit.  Call structure of every ExternalTensor method that can reach the data file. *)",
-             "From Coq Require Import List.", "From IRV Require Import C10.CallModel.", "Import ListNotations.", ""]
+    lines = ["(* GENERATED by harness/props/c10.py (extract_calls / extract_check) from /repo/src/onnx_ir/_core.py, _io.py and",
+             "   external_data.py on every run — do not edit. *)",
+             "From Coq Require Import NArith List Bool.", "From IRV Require Import Base.Exn C10.Model C10.CallModel C10.CheckDsl.",
+             "Import ListNotations.", ""]
     for m in order:
         body = tr.seq(tr.methods[m].body, f"ExternalTensor.{m}")
         lines.append(f"Definition m_{_coq_name(m)} : stm := {body}.")
@@ -1900,6 +1914,7 @@ def extract_calls() -> str:
 def generate(ck) -> bool:
     try:
         text, names = extract_calls()
+        text += "\n" + extract_check()
     except (CallUnsupported, SyntaxError, OSError, StopIteration) as e:
         ck.gen_failed("C10Gen", e)
         return False
@@ -2211,3 +2226,271 @@ def traversal_tie(ck) -> None:
                               "broken": ck.broken_items})
                 break
     shutil.rmtree(root, ignore_errors=True)
+
+
+# =========================================================================== statement-by-statement translation of the check
+
+IO_SRC = os.path.join(REPO, "src", "onnx_ir", "_io.py")
+_EXN_OK = {"ValueError", "TypeError", "OSError", "RuntimeError", "AssertionError"}
+
+
+class _CheckTranslator:
+    """_check_path_containment (and the `path` property, load()'s base_dir expression) -> Gallina over C10/CheckDsl.v.
+    Whitelist only; everything else raises CallUnsupported (fail closed)."""
+
+    def __init__(self):
+        self.locals: dict[str, str] = {}      # python local -> type
+        self.binds: list[tuple[str, str]] = []
+        self.fresh = 0
+
+    def lit(self, sval: str) -> str:
+        return "(" + clist(cN(ord(c)) for c in sval) + " : str)"
+
+    def expr(self, e) -> tuple[str, str]:
+        if isinstance(e, _ast.Name):
+            if e.id not in self.locals:
+                raise CallUnsupported(f"check: unknown name {e.id}")
+            return e.id + "_", self.locals[e.id]
+        if _is_self_attr(e, {"_base_dir"}):
+            return "base", "str"
+        if _is_self_attr(e, {"_location"}):
+            return "loc", "str"
+        if _is_self_attr(e, {"path"}):
+            return "(gen_path base loc)", "str"
+        if isinstance(e, _ast.Attribute) and _ast.unparse(e) == "os.sep":
+            return "o_sep", "str"
+        if isinstance(e, _ast.Constant):
+            if isinstance(e.value, bool) or e.value is None:
+                raise CallUnsupported("check: constant " + repr(e.value))
+            if isinstance(e.value, int) and e.value >= 0:
+                return cN(e.value), "N"
+            if isinstance(e.value, str):
+                return self.lit(e.value), "str"
+            raise CallUnsupported("check: constant " + repr(e.value))
+        if isinstance(e, _ast.BinOp) and isinstance(e.op, _ast.Add):
+            a, ta = self.expr(e.left)
+            b, tb = self.expr(e.right)
+            if ta == tb == "str":
+                return f"({a} ++ {b})", "str"
+            raise CallUnsupported("check: + on " + ta + "/" + tb)
+        if isinstance(e, _ast.IfExp):
+            c = self.cond(e.test)
+            a, ta = self.expr(e.body)
+            b, tb = self.expr(e.orelse)
+            if ta != tb:
+                raise CallUnsupported("check: conditional expression of two types")
+            return f"(if {c} then {a} else {b})", ta
+        if isinstance(e, _ast.BoolOp) and isinstance(e.op, _ast.Or) and len(e.values) == 2:
+            # `x or "."` on strings
+            a, ta = self.expr(e.values[0])
+            b, tb = self.expr(e.values[1])
+            if ta == tb == "str":
+                return f"(if is_nil {a} then {b} else {a})", "str"
+            raise CallUnsupported("check: `or` on non-strings")
+        if isinstance(e, _ast.Attribute) and e.attr == "st_nlink":
+            raise CallUnsupported("check: os.stat(...).st_nlink outside the try/except OSError form")
+        if isinstance(e, _ast.Call):
+            fn = _ast.unparse(e.func)
+            if e.keywords:
+                raise CallUnsupported(f"check: keyword arguments in {fn}")
+            args = [self.expr(a) for a in e.args]
+            one = len(args) == 1 and args[0][1] == "str"
+            if fn == "os.fspath" and one:
+                return f"(o_fspath {args[0][0]})", "str"
+            if fn == "os.path.normcase" and one:
+                return f"(o_normcase {args[0][0]})", "str"
+            if fn == "os.path.normpath" and one:
+                return f"(o_normpath {args[0][0]})", "str"
+            if fn == "os.path.abspath" and one:
+                return f"(o_abspath cwd {args[0][0]})", "str"
+            if fn == "os.path.dirname" and one:
+                return f"(o_dirname {args[0][0]})", "str"
+            if fn == "os.path.join" and len(args) == 2 and args[0][1] == args[1][1] == "str":
+                return f"(o_join {args[0][0]} {args[1][0]})", "str"
+            if fn == "os.path.realpath" and one:
+                self.fresh += 1
+                v = f"r{self.fresh}_"
+                self.binds.append((v, f"o_realpath kf fs cwd pf {args[0][0]}"))
+                return v, "str"
+            raise CallUnsupported(f"check: call {fn}({len(args)} args) is not in the translated subset")
+        raise CallUnsupported("check: expression " + _ast.unparse(e)[:60])
+
+    def cond(self, e) -> str:
+        if isinstance(e, _ast.BoolOp):
+            op = "&&" if isinstance(e.op, _ast.And) else "||"
+            return "(" + f" {op} ".join(self.cond(v) for v in e.values) + ")"
+        if isinstance(e, _ast.UnaryOp) and isinstance(e.op, _ast.Not):
+            try:
+                return f"(negb {self.cond(e.operand)})"
+            except CallUnsupported:
+                t, ty = self.expr(e.operand)     # `not <string>`
+                if ty == "str":
+                    return f"(is_nil {t})"
+                raise
+        if isinstance(e, _ast.Compare) and len(e.ops) == 1:
+            a, ta = self.expr(e.left)
+            b, tb = self.expr(e.comparators[0])
+            op = e.ops[0]
+            if ta == tb == "str" and isinstance(op, _ast.NotEq):
+                return f"(negb (str_eqb {a} {b}))"
+            if ta == tb == "str" and isinstance(op, _ast.Eq):
+                return f"(str_eqb {a} {b})"
+            if ta == tb == "N" and isinstance(op, _ast.Gt):
+                return f"({b} <? {a})%N"
+            if ta == tb == "N" and isinstance(op, _ast.Lt):
+                return f"({a} <? {b})%N"
+            raise CallUnsupported("check: comparison " + _ast.unparse(e))
+        if isinstance(e, _ast.Call) and isinstance(e.func, _ast.Attribute) and e.func.attr in ("startswith", "endswith") \
+                and len(e.args) == 1 and not e.keywords:
+            a, ta = self.expr(e.func.value)
+            b, tb = self.expr(e.args[0])
+            if ta == tb == "str":
+                return f"(o_{e.func.attr} {a} {b})"
+        raise CallUnsupported("check: condition " + _ast.unparse(e)[:60])
+
+    def with_binds(self, body: str) -> str:
+        for v, call in reversed(self.binds):
+            body = f"obind ({call}) (fun {v} =>\n  {body})"
+        self.binds = []
+        return body
+
+    def stmts(self, body: list) -> str:
+        if not body:
+            return "Some (Ok tt)"
+        s, rest = body[0], body[1:]
+        if isinstance(s, _ast.Expr) and isinstance(s.value, _ast.Constant) and isinstance(s.value.value, str):
+            return self.stmts(rest)
+        if isinstance(s, _ast.If) and not s.orelse and len(s.body) == 1:
+            inner = s.body[0]
+            c = self.cond(s.test)
+            if self.binds:
+                raise CallUnsupported("check: realpath inside a condition")
+            if isinstance(inner, _ast.Return) and inner.value is None:
+                return f"if {c} then Some (Ok tt) else\n  {self.stmts(rest)}"
+            if isinstance(inner, _ast.Raise) and isinstance(inner.exc, _ast.Call) and isinstance(inner.exc.func, _ast.Name) \
+                    and inner.exc.func.id in _EXN_OK and inner.cause is None:
+                for a in inner.exc.args:      # the message: a (f-)string over locals, no calls
+                    if any(isinstance(n, _ast.Call) for n in _ast.walk(a)):
+                        raise CallUnsupported("check: call inside an exception message")
+                return f"if {c} then Some (Raise {inner.exc.func.id}) else\n  {self.stmts(rest)}"
+            raise CallUnsupported("check: if-body " + _ast.unparse(inner)[:60])
+        if isinstance(s, _ast.Assign) and len(s.targets) == 1 and isinstance(s.targets[0], _ast.Name):
+            t, ty = self.expr(s.value)
+            name = s.targets[0].id
+            self.locals[name] = ty
+            k = f"let {name}_ := {t} in\n  "
+            binds, self.binds = self.binds, []
+            out = k + self.stmts(rest)
+            self.binds = binds
+            return self.with_binds(out)
+        if isinstance(s, _ast.Try) and not s.orelse and not s.finalbody and len(s.body) == 1 and len(s.handlers) == 1:
+            a, h = s.body[0], s.handlers[0]
+            ok = (isinstance(a, _ast.Assign) and len(a.targets) == 1 and isinstance(a.targets[0], _ast.Name)
+                  and isinstance(a.value, _ast.Attribute) and a.value.attr == "st_nlink"
+                  and isinstance(a.value.value, _ast.Call) and _ast.unparse(a.value.value.func) == "os.stat"
+                  and len(a.value.value.args) == 1 and not a.value.value.keywords
+                  and isinstance(h.type, _ast.Name) and h.type.id == "OSError" and len(h.body) == 1
+                  and isinstance(h.body[0], _ast.Assign) and len(h.body[0].targets) == 1
+                  and isinstance(h.body[0].targets[0], _ast.Name) and h.body[0].targets[0].id == a.targets[0].id)
+            if not ok:
+                raise CallUnsupported("check: try statement outside the `x = os.stat(p).st_nlink / except OSError: x = c` form")
+            p_, ty = self.expr(a.value.value.args[0])
+            d, td = self.expr(h.body[0].value)
+            if ty != "str" or td != "N" or self.binds:
+                raise CallUnsupported("check: try statement operands")
+            name = a.targets[0].id
+            self.locals[name] = "N"
+            return (f"let {name}_ := match o_stat_nlink kf fs cwd {p_} with Some n => n | None => {d} end in\n  "
+                    + self.stmts(rest))
+        raise CallUnsupported("check: statement " + _ast.unparse(s)[:70])
+
+
+def _norm_dump(stmts) -> str:
+    return "\n".join(_ast.dump(x) for x in stmts
+                     if not (isinstance(x, _ast.Expr) and isinstance(x.value, _ast.Constant) and isinstance(x.value.value, str)))
+
+
+def extract_check() -> str:
+    with open(CORE_SRC, encoding="utf-8") as f:
+        core = _ast.parse(f.read())
+    cls = next(n for n in core.body if isinstance(n, _ast.ClassDef) and n.name == "ExternalTensor")
+    fns = [f for f in cls.body if isinstance(f, _ast.FunctionDef)]
+    out = []
+    # ---- the `path` property
+    pth = next(f for f in fns if f.name == "path")
+    body = [x for x in pth.body if not (isinstance(x, _ast.Expr) and isinstance(x.value, _ast.Constant))]
+    if len(body) != 1 or not isinstance(body[0], _ast.Return):
+        raise CallUnsupported("ExternalTensor.path is not a single return")
+    tr = _CheckTranslator()
+    t, ty = tr.expr(body[0].value)
+    if ty != "str" or tr.binds:
+        raise CallUnsupported("ExternalTensor.path: unsupported expression")
+    out.append("(* ExternalTensor.path : `" + _ast.unparse(body[0].value) + "` *)")
+    out.append(f"Definition gen_path (base loc : str) : str := {t}.")
+    # ---- base_dir getter/setter, location: plain field accessors (anything else changes what the check sees)
+    for f in fns:
+        is_setter = any(isinstance(d, _ast.Attribute) and d.attr == "setter" for d in f.decorator_list)
+        if f.name == "base_dir":
+            want = "self._base_dir = value" if is_setter else "return self._base_dir"
+        elif f.name == "location" and not is_setter:
+            want = "return self._location"
+        else:
+            continue
+        b = [x for x in f.body if not (isinstance(x, _ast.Expr) and isinstance(x.value, _ast.Constant))]
+        if len(b) != 1 or _ast.unparse(b[0]) != want:
+            raise CallUnsupported(f"ExternalTensor.{f.name} {'setter' if is_setter else 'getter'} is not `{want}`: "
+                                  + "; ".join(_ast.unparse(x) for x in b)[:100])
+    init = next(f for f in fns if f.name == "__init__")
+    stores = sorted(_ast.unparse(n) for n in _ast.walk(init) if isinstance(n, _ast.Assign)
+                    and any(_is_self_attr(t_, PATH_FIELDS) for t_ in n.targets))
+    if stores != ["self._base_dir = base_dir", "self._location = location"]:
+        raise CallUnsupported("ExternalTensor.__init__ stores base_dir/location differently: " + "; ".join(stores))
+    out.append("Definition gen_fields_are_plain : bool := true.   (* base_dir getter/setter, location, __init__: plain stores *)")
+    # ---- the check itself
+    chk = next(f for f in fns if f.name == "_check_path_containment")
+    if chk.args.args != [] and [a.arg for a in chk.args.args] != ["self"]:
+        raise CallUnsupported("_check_path_containment takes arguments")
+    if chk.decorator_list:
+        raise CallUnsupported("_check_path_containment is decorated")
+    tr = _CheckTranslator()
+    text = tr.stmts(chk.body)
+    out.append("(* ExternalTensor._check_path_containment, statement by statement *)")
+    out.append("Definition gen_check (kf : nat) (fs : node) (cwd : rpath) (pf : nat) (base loc : str) : option (res unit) :=\n  "
+               + text + ".")
+    # ---- _io.load: straight-line, base_dir expression translated
+    with open(IO_SRC, encoding="utf-8") as f:
+        io_ = _ast.parse(f.read())
+    ld = next(n for n in io_.body if isinstance(n, _ast.FunctionDef) and n.name == "load")
+    body = [x for x in ld.body if not (isinstance(x, _ast.Expr) and isinstance(x.value, _ast.Constant))]
+    shape = [type(x).__name__ for x in body]
+    if shape != ["Assign", "Assign", "Assign", "Expr", "For", "Return"]:
+        raise CallUnsupported("_io.load is no longer the straight line proto/model/base_dir/set_base_dir/for/return: " + str(shape))
+    if _ast.unparse(body[3]) != "_external_data.set_base_dir(model.graph, base_dir)":
+        raise CallUnsupported("_io.load: " + _ast.unparse(body[3]))
+    fr = body[4]
+    if not (_ast.unparse(fr.target) == "function" and _ast.unparse(fr.iter) == "model.functions.values()" and len(fr.body) == 1
+            and _ast.unparse(fr.body[0]) == "_external_data.set_base_dir(function, base_dir)" and not fr.orelse):
+        raise CallUnsupported("_io.load: functions loop changed: " + _ast.unparse(fr)[:100])
+    if _ast.unparse(body[5]) != "return model" or _ast.unparse(body[1]) != "model = serde.deserialize_model(proto)":
+        raise CallUnsupported("_io.load: model/return changed")
+    ba = body[2]
+    if not (len(ba.targets) == 1 and _ast.unparse(ba.targets[0]) == "base_dir"):
+        raise CallUnsupported("_io.load: third statement is not the base_dir assignment")
+    tr = _CheckTranslator()
+    tr.locals["path"] = "str"
+    t, ty = tr.expr(ba.value)
+    if ty != "str" or tr.binds:
+        raise CallUnsupported("_io.load: base_dir expression")
+    out.append("(* _io.load : base_dir = `" + _ast.unparse(ba.value) + "`; then set_base_dir(model.graph), set_base_dir(f) for every function, return *)")
+    out.append(f"Definition gen_load_base (path_ : str) : str := {t}.")
+    # ---- external_data.set_base_dir: assigns base_dir, unconditionally, to every ExternalTensor of _all_tensors
+    with open(ED_SRC, encoding="utf-8") as f:
+        ed = _ast.parse(f.read())
+    sb = next(n for n in ed.body if isinstance(n, _ast.FunctionDef) and n.name == "set_base_dir")
+    b = [x for x in sb.body if not (isinstance(x, _ast.Expr) and isinstance(x.value, _ast.Constant))]
+    want = ("for tensor in _all_tensors(graph, include_attributes=True):\n"
+            "    if isinstance(tensor, _core.ExternalTensor):\n        tensor.base_dir = base_dir")
+    if len(b) != 1 or _ast.unparse(b[0]) != want:
+        raise CallUnsupported("external_data.set_base_dir changed: " + "; ".join(_ast.unparse(x) for x in b)[:160])
+    out.append("Definition gen_set_base_dir_is_plain : bool := true.   (* for t in _all_tensors(g, True): if ExternalTensor: t.base_dir = base_dir *)")
+    return "\n".join(out) + "\n"
